@@ -783,6 +783,11 @@ impl<'a, C: MlsConfig> Hist<'a, C> {
         );
         let before = self.w.components(c);
         let tree_before = self.w.anodes(c);
+        // inputs of the transcript-hash / membership-tag formulas of this epoch (C13 rows)
+        let th_interim_before = self.w.group(c).verif_interim_transcript_hash();
+        let th_membership_key = self.w.group(c).verif_key_schedule()[1].clone();
+        let th_context = mls_rs::mls_rs_codec::MlsEncode::mls_encode_to_vec(self.w.group(c).context()).unwrap_or_default();
+        let th_suite = self.w.members[c].setup.suite;
         // abstract bundle for the proposal-filter model (C10): cached by-reference proposals in bundle order,
         // then the by-value ones in the order the builder receives them
         let cached = self.w.group(c).verif_cached_proposals_in_bundle_order();
@@ -912,6 +917,34 @@ impl<'a, C: MlsConfig> Hist<'a, C> {
             _ => vec![],
         };
         self.rep.commits += 1;
+        // C13: confirmed / interim transcript hash of the new epoch and the membership tags of this epoch's public messages,
+        // recomputed by the Lean model from the raw message bytes
+        {
+            let is_public = |b: &[u8]| b.len() > 4 && b[2] == 0 && b[3] == 1;
+            let cb = self.w.msgs[cmi].msg.to_bytes().unwrap_or_default();
+            let confirmed_after = self.w.group(c).context().confirmed_transcript_hash.to_vec();
+            let interim_after = self.w.group(c).verif_interim_transcript_hash();
+            let mut rows: Vec<(String, String)> = vec![];
+            if is_public(&cb) {
+                rows.push((
+                    format!("th {th_suite} {} {}", crate::util::hex(&th_interim_before), crate::util::hex(&cb)),
+                    format!("{} {}", crate::util::hex(&confirmed_after), crate::util::hex(&interim_after)),
+                ));
+                rows.push((format!("mtag {th_suite} {} {} {}", crate::util::hex(&th_membership_key), crate::util::hex(&th_context), crate::util::hex(&cb)), "ok".into()));
+            }
+            for &mi in &round_props {
+                let from_member = active.iter().any(|&i| self.w.members[i].setup.name == self.w.msgs[mi].from);
+                let pb = self.w.msgs[mi].msg.to_bytes().unwrap_or_default();
+                if from_member && is_public(&pb) {
+                    rows.push((format!("mtag {th_suite} {} {} {}", crate::util::hex(&th_membership_key), crate::util::hex(&th_context), crate::util::hex(&pb)), "ok".into()));
+                }
+            }
+            if let Some(qa) = self.tree_qa.as_deref_mut() {
+                for (q, a) in rows {
+                    qa.put(&q, &a);
+                }
+            }
+        }
         // abstract edits of this commit for the tree-layer model
         let mut e_rm: Vec<u32> = vec![];
         let mut e_up: Vec<(u32, usize, usize, usize)> = vec![];
